@@ -295,12 +295,21 @@ class Ctx:
         self.nviol = getattr(self, "nviol", 0) + 1
 
     def negative_control(self, name, rejected):
+        """A corrupted observation that the lane must refuse.  A control that fails is a machinery failure -- unless the run also
+        found violations: corrupted copies of executions that already violate the property prove nothing (a corruption may cancel
+        a real fault), so the verdict is deferred to finish()."""
         self.cov["negative_controls"].append(dict(name=name, rejected=bool(rejected)))
         if not rejected:
-            raise Machinery("negative control '%s' was not rejected: the lane cannot tell right from wrong" % name)
+            self.__dict__.setdefault("_failed_controls", []).append(name)
 
     # ------------------------------------------------------------------ finish
     def finish(self, rule, exhaustive=False, level="model_checking"):
+        failed = self.__dict__.get("_failed_controls", [])
+        if failed and not (self.violations or getattr(self, "nviol", 0)):
+            raise Machinery("negative control '%s' was not rejected: the lane cannot tell right from wrong" % failed[0])
+        for c in self.cov["negative_controls"]:
+            if not c["rejected"]:
+                c["undecided_because_violations_exist"] = True
         seen = set()
         for f, v in self.known_hits:
             if f["id"] not in seen:
